@@ -14,7 +14,7 @@ def conv(tokens):
             out.append([ty, t["raw"]])
         elif ty in ("linebreak", "softbreak"):
             out.append([ty])
-        elif ty in ("emphasis", "strong"):
+        elif ty in ("emphasis", "strong", "strikethrough", "mark", "insert", "superscript", "subscript"):
             out.append([ty, conv(t["children"])])
         elif ty in ("link", "image"):
             a = t.get("attrs") or {}
@@ -25,7 +25,7 @@ def conv(tokens):
     return out
 
 
-INLINE_ALPHABET = list("ab1 \n*_`[]()<>!\\\"'&;.@/:-#") + ["  \n", "\\\n", "**", "__", "***", "``", "](", "](/u)", "[r]", "][", "<a>", "</a>", "<http://x.y>", "<m@x.y>",
+INLINE_ALPHABET = list("ab1 \n*_`[]()<>!\\\"'&;.@/:-#~=^") + ["~~", "==", "^^", "\\ ", "\\~", "http://a.b/c", "https://x.y", "https://x.y.", "  \n", "\\\n", "**", "__", "***", "``", "](", "](/u)", "[r]", "][", "<a>", "</a>", "<http://x.y>", "<m@x.y>",
                                                            "![", "<!--", "-->", "&amp;", "\\*", "\\[", "\\]", "\\`", " \"t\")", " 't')", "(<", ">)", "[R]", "[ r ]", "\\\\", "<b c='d'>"]
 
 
@@ -44,29 +44,30 @@ REFS = [["R", "/ref", "Ref Title"], ["FOO", "/foo", None], ["A B", "/ab", ""], [
 def run(ctx, n):
     m = ctx.mistune
     r = ctx.rng("inline-corr")
-    from mistune.inline_parser import InlineParser
-    parsers = {False: InlineParser(False), True: InlineParser(True)}
+    PX = ["strikethrough", "mark", "insert", "superscript", "subscript", "url"]
+    parsers = {(px, hw): m.create_markdown(renderer=None, hard_wrap=hw, plugins=(PX if px else [])).inline for px in (False, True) for hw in (False, True)}
     cases, want = [], []
     for i in range(n):
         text = gen_text(r)
         if any(0xD800 <= ord(c) <= 0xDFFF for c in text):
             continue
         hw = r.random() < 0.2
+        px = r.random() < 0.5
         refs = [] if r.random() < 0.3 else r.sample(REFS, r.randint(1, len(REFS)))
         env = {"ref_links": {k: ({"url": u, "title": t} if t is not None else {"url": u}) for k, u, t in refs}}
         if r.random() < 0.5:
             env = {"ref_links": {k: {"url": u, "title": t} for k, u, t in refs}}
         try:
-            toks = conv(parsers[hw](text, env))
+            toks = conv(parsers[(px, hw)](text, env))
         except Exception as e:  # noqa
             toks = ["error", "exception"]
-        cases.append(("inline", [text, hw, [[k, u, t] for k, u, t in refs]]))
+        cases.append(("inline", [text, hw, [[k, u, t] for k, u, t in refs], px]))
         want.append(toks)
     res = run_model(cases)
     dis = []
     for c, mv, iv in zip(cases, res, want):
         if mv != iv:
-            dis.append({"input": c[1][0], "hard_wrap": c[1][1], "refs": c[1][2], "model": mv, "impl": iv})
+            dis.append({"input": c[1][0], "hard_wrap": c[1][1], "refs": c[1][2], "plugins": c[1][3], "model": mv, "impl": iv})
     return {"evaluations": len(cases), "disagreements": dis[:20], "samples": [json.dumps(cases[0][1][0])]}
 
 
